@@ -106,6 +106,34 @@ pub fn run_pna(sbx: &Sbx, cwd: &Path, args: &[&str], stdin: Option<&[u8]>, timeo
     Run { code, stdout: t1.join().unwrap(), stderr: t2.join().unwrap() }
 }
 
+/// Like `run_pna` with stdout discarded (commands whose output is legitimately huge).
+pub fn run_pna_discard(sbx: &Sbx, cwd: &Path, args: &[&str], timeout_s: u64) -> Run {
+    let mut cmd = Command::new(pna_bin());
+    cmd.args(args).current_dir(cwd).env("TMPDIR", sbx.root.join("tmp")).env("RUST_BACKTRACE", "0").stdin(Stdio::null()).stdout(Stdio::null()).stderr(Stdio::piped());
+    let mut child = cmd.spawn().expect("cannot start pna binary");
+    let mut se = child.stderr.take().unwrap();
+    let t2 = std::thread::spawn(move || {
+        let mut v = vec![];
+        let _ = se.read_to_end(&mut v);
+        String::from_utf8_lossy(&v[..v.len().min(4000)]).to_string()
+    });
+    let start = Instant::now();
+    let code = loop {
+        match child.try_wait().unwrap() {
+            Some(st) => break st.code().unwrap_or(-1),
+            None => {
+                if start.elapsed() > Duration::from_secs(timeout_s) {
+                    let _ = child.kill();
+                    let _ = child.wait();
+                    break 124;
+                }
+                std::thread::sleep(Duration::from_millis(2));
+            }
+        }
+    };
+    Run { code, stdout: vec![], stderr: t2.join().unwrap() }
+}
+
 #[derive(Debug, Clone, PartialEq, Eq)]
 pub enum Node {
     File { content: Vec<u8>, mode: u32, mtime: i64, ino: u64, nlink: u64 },
